@@ -5,7 +5,7 @@ from hypothesis import strategies as st
 import pytenet as ptn
 from core import Part, require, known_listed
 from lanczos_monitor import LanczosMonitor
-from gen_dyn import ham_and_state, complete_case, build_ham, dense_ham, dense_state, sector_mask
+from gen_dyn import ham_and_state, complete_case, build_ham, dense_ham, dense_state, sector_mask, gauge_edit
 from gen_qn import build_mps
 from oracle_dense import mps_mask_violation
 
@@ -106,7 +106,12 @@ def check_dmrg(case, rec):
     try:
         E1 = one_call('first call', E_start)
         if case['second_call']:
-            if case.get('edit_between'):
+            if case.get('edit_between') == 'gauge':
+                # same state in a different gauge (no tensor next to the chosen bond is an isometry any more): the second call
+                # must canonicalise it itself and, like every call, not report more than the energy it started from
+                if gauge_edit(psi, case['psi']['seed']):
+                    rec.label('gauge_change_between_calls')
+            elif case.get('edit_between'):
                 # user-style edit between the invocations (norm 3): the second call must start from the current tensors
                 k = case['psi']['seed'] % L
                 psi.A[k] = 3.0 * psi.A[k]
@@ -128,7 +133,7 @@ def gen_dmrg(draw, tier):
     c['iters'] = draw(st.sampled_from([4, 2, 3, 5, 8, 40]))
     c['tol_split'] = draw(st.sampled_from([0, 0, 0, 1e-8, 1e-2]))
     c['second_call'] = draw(st.booleans())
-    c['edit_between'] = draw(st.booleans())
+    c['edit_between'] = draw(st.sampled_from([False, True, 'gauge']))
     return c
 
 
